@@ -15,8 +15,8 @@ Translated:
                        last_checked_pc = None; ...`)
   * gen_event_of       the arms of `match (old, new)` in DebugSession::handle_machine_event (mos/src/debugger/mod.rs)
                        plus the Message / Disconnected arms, in source order
-Checked for shape (ShapeError = broken tie): TestRunner::step_over (run to pc+3) and step_out (count nested calls until the
-subroutine's own rts) of mos/src/test_runner/mod.rs, which model/DapStep.v mirrors; order of the regions in the machine thread (state read, runner.read block with
+Checked for shape (ShapeError = broken tie): TestRunner::step_over, step_out, run_until_return (count nested calls until the
+subroutine's own rts) and the call_depth bookkeeping of execute_instruction in mos/src/test_runner/mod.rs, which model/DapStep.v mirrors; order of the regions in the machine thread (state read, runner.read block with
 last_checked_pc / breakpoints / publish, runner.write block with execute_instruction), step_in / next / step_out =
 runner.write block followed by self.pause(), update_state = lock + assign + send, start() assigns Running without an event,
 resume() = update_state(Running), set_breakpoints assigns under the breakpoints lock, registers() reads under runner.read.
@@ -129,16 +129,25 @@ def runner_steps(src):
     """TestRunner::step_over / step_out have the shape model/DapStep.v mirrors"""
     so = squash(fn_body(src, "step_over"))
     if so != ("let opcode = self.ram.read().unwrap().ram[self.cpu.get_program_counter() as usize]; match opcode { 0x20 => { "
-              "let wait_until_pc = self.cpu.get_program_counter() + 3; loop { let result = self.execute_instruction()?; "
-              "if self.cpu.get_program_counter() == wait_until_pc { return Ok(result); } match result { ExecuteResult::Running => {} "
-              "result => { return Ok(result); } } } } _ => self.execute_instruction(), }"):
+              "match self.execute_instruction()? { ExecuteResult::Running => self.run_until_return(), result => Ok(result), } } "
+              "_ => self.execute_instruction(), }"):
         raise ShapeError("TestRunner::step_over: unrecognised body: " + so[:200])
     out = squash(fn_body(src, "step_out"))
-    if out != ("if self.cpu.get_stack_pointer() > 253 { return Ok(ExecuteResult::Running); } let mut nested_calls = 0; loop { "
+    if out != "if self.call_depth == 0 { return Ok(ExecuteResult::Running); } self.run_until_return()":
+        raise ShapeError("TestRunner::step_out: unrecognised body: " + out[:200])
+    rur = squash(fn_body(src, "run_until_return"))
+    if rur != ("let mut nested_calls = 0; loop { "
                "let opcode = self.ram.read().unwrap().ram[self.cpu.get_program_counter() as usize]; match self.execute_instruction()? { "
                "ExecuteResult::Running => {} result => { return Ok(result); } } match opcode { 0x20 => nested_calls += 1, "
                "0x60 if nested_calls == 0 => return Ok(ExecuteResult::Running), 0x60 => nested_calls -= 1, _ => {} } }"):
-        raise ShapeError("TestRunner::step_out: unrecognised body: " + out[:200])
+        raise ShapeError("TestRunner::run_until_return: unrecognised body: " + rur[:200])
+    ex = squash(fn_body(src, "execute_instruction"))
+    tail = ("let opcode = self.ram.read().unwrap().ram[self.cpu.get_program_counter() as usize]; self.cpu.cycle(self.ram.write().unwrap()."
+            "deref_mut()); self.num_cycles += 1 + self.cpu.get_remaining_cycles() as usize; self.cpu .execute_instruction(self.ram.write()."
+            "unwrap().deref_mut()); match opcode { 0x20 => self.call_depth += 1, 0x60 => self.call_depth = self.call_depth.saturating_sub(1), "
+            "_ => {} } Ok(ExecuteResult::Running)")
+    if not ex.endswith(tail) or len(re.findall(r"call_depth", src)) != 6:
+        raise ShapeError("TestRunner::execute_instruction: call_depth is not maintained the way model/DapStep.v (call_depth) mirrors")
 
 
 STATE = {"Launching": "Launching", "Running": "Running", "Stopped(_)": "(Stopped _)", "_": "_"}
